@@ -203,6 +203,11 @@ func (f *MemFile) Read(b []byte) (n int, err error) {
 		return 0, &fs.PathError{Op: op, Path: f.name, Err: fs.ErrClosed}
 	}
 
+	if len(b) == 0 {
+		// a zero length read returns at once, whatever the file is (see os.File).
+		return 0, nil
+	}
+
 	nd, ok := f.nd.(*fileNode)
 	if !ok {
 		err = avfs.ErrIsADirectory
@@ -252,8 +257,16 @@ func (f *MemFile) ReadAt(b []byte, off int64) (n int, err error) {
 		return 0, fs.ErrInvalid
 	}
 
+	if off < 0 {
+		return 0, &fs.PathError{Op: "readat", Path: f.name, Err: avfs.ErrNegativeOffset}
+	}
+
 	if f.nd == nil {
 		return 0, &fs.PathError{Op: op, Path: f.name, Err: fs.ErrClosed}
+	}
+
+	if len(b) == 0 {
+		return 0, nil
 	}
 
 	nd, ok := f.nd.(*fileNode)
@@ -264,10 +277,6 @@ func (f *MemFile) ReadAt(b []byte, off int64) (n int, err error) {
 		}
 
 		return 0, &fs.PathError{Op: op, Path: f.name, Err: err}
-	}
-
-	if off < 0 {
-		return 0, &fs.PathError{Op: "readat", Path: f.name, Err: avfs.ErrNegativeOffset}
 	}
 
 	if f.openMode&avfs.OpenRead == 0 {
@@ -578,12 +587,12 @@ func (f *MemFile) Truncate(size int64) error {
 		return fs.ErrInvalid
 	}
 
-	if size < 0 {
-		return &fs.PathError{Op: op, Path: f.name, Err: f.vfs.err.InvalidArgument}
-	}
-
 	if f.nd == nil {
 		return &fs.PathError{Op: op, Path: f.name, Err: fs.ErrClosed}
+	}
+
+	if size < 0 {
+		return &fs.PathError{Op: op, Path: f.name, Err: f.vfs.err.InvalidArgument}
 	}
 
 	nd, ok := f.nd.(*fileNode)
@@ -634,6 +643,11 @@ func (f *MemFile) Write(b []byte) (n int, err error) {
 
 	if f.nd == nil {
 		return 0, &fs.PathError{Op: op, Path: f.name, Err: fs.ErrClosed}
+	}
+
+	if len(b) == 0 {
+		// a zero length write returns at once and does not move the offset (see os.File).
+		return 0, nil
 	}
 
 	nd, ok := f.nd.(*fileNode)
@@ -690,6 +704,10 @@ func (f *MemFile) WriteAt(b []byte, off int64) (n int, err error) {
 
 	if f == nil {
 		return 0, fs.ErrInvalid
+	}
+
+	if f.openMode&avfs.OpenAppend != 0 {
+		return 0, avfs.ErrWriteAtInAppendMode
 	}
 
 	if off < 0 {
